@@ -154,7 +154,7 @@ def _fv_denote(n, num, den):
 
 
 def _fraction_value_part(task):
-    dens = task
+    dens, step = task
     part = Part()
     pre = "from barril.basic.fraction import Fraction, FractionValue\n"
     allv = []
@@ -186,7 +186,7 @@ def _fraction_value_part(task):
                 part.add("outcomes", ("fv", float(want) < 0, num == 0))
                 allv.append((n, num, den, want, f))
     # comparisons: all ordered pairs of this shard's subset (every 3rd value) incl. across denominators
-    sub = allv[::3]
+    sub = allv[::step]
     for (n1, u1, d1, w1, f1), (n2, u2, d2, w2, f2) in itertools.product(sub, repeat=2):
         if w1 == w2 and f1 != f2:
             part.count("ties_differing_by_rounding_skipped")
@@ -204,7 +204,7 @@ def _fraction_value_part(task):
 
 
 def _from_float_task(task):
-    kind, lo, hi = task
+    kind, lo, hi, kmax = task
     part = Part()
     pre = "from barril.basic.fraction import FractionValue\n"
     seen = set()
@@ -229,7 +229,7 @@ def _from_float_task(task):
 
     if kind == "decimal":
         for n in range(lo, hi):
-            for k in range(5):
+            for k in range(kmax + 1):
                 for s in (1, -1):
                     check(s * n / 10.0**k, "n/10^k")
     else:
@@ -327,36 +327,36 @@ def _fs_task(task):
                         if r2[0] != "ok" or abs(r2[1] - want) > 1e-12 * scale:
                             part.violation(sig + ":db.Convert(FractionValue) differs from Scalar", {"got": repr(r2), "scalar": want}, sn)
                     # order comparisons against probes that are robustly less / greater (1e-6)
-                    n, (num, den) = values[0]
-                    fv = FractionValue(n, (num, den))
-                    x = float(fv)
-                    a = FractionScalar(c, fv, u)
-                    conv = db.Convert(qt, u, v, x)
-                    sc = max(abs(conv), abs(zero))
-                    for kind, y in (("less", conv - 1e-6 * sc), ("greater", conv + 1e-6 * sc)):
-                        b = FractionScalar(c, FractionValue(y), v)
-                        sa, sb = Scalar(x, u, c), Scalar(y, v, c)
-                        for name, op in CMP[:4]:
-                            part.count("evaluations")
-                            r = _run(lambda: (op(a, b), op(b, a)))
-                            want = (op(sa, sb), op(sb, sa))
-                            if r != ("ok", want):
-                                # is it the recorded quantisation? re-evaluate with the model's converted amounts
-                                model = None
-                                if r[0] == "ok" and u != v:
-                                    try:
-                                        cnum = db.Convert(qt, u, v, float(fv.GetFraction().numerator)) - zero
-                                        a_in_v = db.Convert(qt, u, v, float(n)) + float(quantised(cnum) / fv.GetFraction().denominator)
-                                        y_in_u = db.Convert(qt, v, u, y)  # b has no fraction part: exact path
-                                        # mirror of the implementation's structure: p < q is p.value < q.GetValue(p.unit),
-                                        # the other three operators are derived from it
-                                        a_lt_b, b_lt_a = x < y_in_u, y < a_in_v
-                                        pred = {"<": (a_lt_b, b_lt_a), "<=": (not b_lt_a, not a_lt_b), ">": (b_lt_a, a_lt_b), ">=": (not a_lt_b, not b_lt_a)}[name]
-                                        if pred == r[1]:
-                                            model = "fraction-numerator-quantised"
-                                    except (ValueError, OverflowError, ZeroDivisionError):
-                                        pass
-                                part.violation("C18:FractionScalar order:%s %s vs %s %s:%s" % (fv, u, kind, v, name), {"got": repr(r), "scalar": want}, None, model=model)
+                    for n, (num, den) in (values if all_values else values[:1]):
+                        fv = FractionValue(n, (num, den))
+                        x = float(fv)
+                        a = FractionScalar(c, fv, u)
+                        conv = db.Convert(qt, u, v, x)
+                        sc = max(abs(conv), abs(zero))
+                        for kind, y in (("less", conv - 1e-6 * sc), ("greater", conv + 1e-6 * sc)):
+                            b = FractionScalar(c, FractionValue(y), v)
+                            sa, sb = Scalar(x, u, c), Scalar(y, v, c)
+                            for name, op in CMP[:4]:
+                                part.count("evaluations")
+                                r = _run(lambda: (op(a, b), op(b, a)))
+                                want = (op(sa, sb), op(sb, sa))
+                                if r != ("ok", want):
+                                    # is it the recorded quantisation? re-evaluate with the model's converted amounts
+                                    model = None
+                                    if r[0] == "ok" and u != v:
+                                        try:
+                                            cnum = db.Convert(qt, u, v, float(fv.GetFraction().numerator)) - zero
+                                            a_in_v = db.Convert(qt, u, v, float(n)) + float(quantised(cnum) / fv.GetFraction().denominator)
+                                            y_in_u = db.Convert(qt, v, u, y)  # b has no fraction part: exact path
+                                            # mirror of the implementation's structure: p < q is p.value < q.GetValue(p.unit),
+                                            # the other three operators are derived from it
+                                            a_lt_b, b_lt_a = x < y_in_u, y < a_in_v
+                                            pred = {"<": (a_lt_b, b_lt_a), "<=": (not b_lt_a, not a_lt_b), ">": (b_lt_a, a_lt_b), ">=": (not a_lt_b, not b_lt_a)}[name]
+                                            if pred == r[1]:
+                                                model = "fraction-numerator-quantised"
+                                        except (ValueError, OverflowError, ZeroDivisionError):
+                                            pass
+                                    part.violation("C18:FractionScalar order:%s %s vs %s %s:%s" % (fv, u, kind, v, name), {"got": repr(r), "scalar": want}, None, model=model)
     return part
 
 
@@ -376,9 +376,11 @@ def _task(task):
 def run(ctx):
     tasks = [("fraction", None)]
     dens = list(range(1, 65))
-    tasks += [("fv", dens[i::8]) for i in range(8)]
-    tasks += [("ff", ("decimal", lo, min(lo + 1251, 10001))) for lo in range(0, 10001, 1251)]
-    tasks += [("ff", ("pq", 2, 65))]
+    tasks += [("fv", (dens[i::16], 1 if ctx.thorough else 3)) for i in range(16)]
+    nmax, kmax = (100000, 6) if ctx.thorough else (10000, 4)
+    step = nmax // 32 + 1
+    tasks += [("ff", ("decimal", lo, min(lo + step, nmax + 1), kmax)) for lo in range(0, nmax + 1, step)]
+    tasks += [("ff", ("pq", 2, 129 if ctx.thorough else 65, 0))]
     with worlds.world("posc") as db:
         qts = sorted(db.GetQuantityTypes(), key=lambda q: -len(db.GetUnits(q)))
     tasks += [("fs", (qts[i::48], ctx.thorough)) for i in range(48)]
@@ -387,10 +389,10 @@ def run(ctx):
     ctx.level = "exploration"
     ctx.rule = (
         "complete products: (A) 16x16 Fraction pairs x 5 arithmetic + 6 comparison operators, 7 numbers on both sides, exponents -2..3, unary operations and setters, judged by fractions.Fraction; "
-        "(B) 11 numbers x 7 numerators x denominators 1..64 FractionValues: float, copy, str->CreateFromString (2 modes), 4 order operators over all ordered pairs of a third of them; "
-        "(C) CreateFromFloat on every +-n/10^k (n <= 10^4, k <= 4) and every +-(i + p/q), q <= 64 terminating, <= 8 significant digits; "
+        "(B) 11 numbers x 7 numerators x denominators 1..64 FractionValues: float, copy, str->CreateFromString (2 modes), 4 order operators over all ordered pairs of them (quick: of every third); "
+        "(C) CreateFromFloat on every +-n/10^k (n <= %s) and every +-(i + p/q), q <= %s terminating, <= 8 significant digits; "
         "(D) every ordered unit pair of every quantity type x %d fraction values: FractionScalar.GetValue and db.Convert(FractionValue) vs Scalar(float(value)), 4 order operators x 2 probes x both operand orders; "
-        "non-trivial = Fraction pairs + FractionValues with a fraction part + CreateFromFloat results with a fraction part + converting unit pairs" % (5 if ctx.thorough else 3)
+        "non-trivial = Fraction pairs + FractionValues with a fraction part + CreateFromFloat results with a fraction part + converting unit pairs" % (("10^5, k <= 6", "128", 5) if ctx.thorough else ("10^4, k <= 4", "64", 3))
     )
     ctx.coverage_extra = {"unit_pairs": c.get("unit_pairs", 0), "ties_differing_by_rounding_skipped": c.get("ties_differing_by_rounding_skipped", 0)}
     ctx.assumptions = [
